@@ -31,7 +31,9 @@ RULE = ('pseudo-observation arrays X (n,2): samples of Clayton/Frank/Gumbel draw
         'continuous) in tie and search: tau bit-equal to scipy kendalltau of the RAW columns and to the harness tau-b; data FORMS '
         '(Fortran order, strided view, read-only, object dtype, float32/float16/longdouble, list, DataFrame) against the '
         'float64 C-ordered image of the same values, and every ROUTE to the deprecated alias (class, instance, concrete '
-        'families, Bivariate(copula_type=...)) against the module function; an '
+        'families, Bivariate(copula_type=...)) against the module function; PERFECT '
+        'dependence (identical / monotone / sorted / rank columns and their reversals, n in {2,3,10,200}, tau = +-1 exactly, '
+        'and 1 - tiny with a tie or one inversion): the full statement incl. theta finite and admissible; an '
         'ALIASING batch (8 calls on harness-sampled arrays covering all three families, all results kept and re-checked: '
         'unchanged, pairwise distinct objects, equal to a second call on the same X); and LARGE-n cases (n = 10000, '
         '12000, 20001 from harness-side samplers): _compute_empirical against the definition over all rows (1e-12) and '
@@ -265,6 +267,9 @@ def datasets(ctx, grid, stream, nfam, nsmall, nbad, sizes):
     for k, tau in enumerate(NEGATIVE_TAUS):           # strongly negative dependence: Frank's solver far from its start
         samp = NEGATIVE_SAMPLERS[rng.randrange(len(NEGATIVE_SAMPLERS))]
         out.append((f'negative-{samp}', negative_sample(samp, tau, rng.choice([150, 300, 600]), rng.randrange(2 ** 31))))
+    for kind_, n_ in (('identical', 10), ('sorted', 200), ('identical', 3), ('discordant', 200), ('one-tie', 200),
+                      ('one-swap', 10), ('rank-pseudo', 200)):      # tau = +-1 exactly and 1 - tiny
+        out.append((f'perfect-{kind_}', perfect_dataset(kind_, n_, rng.randrange(2 ** 31))))
     for spec in FORM_DATA[:3]:                         # float64 images of the float32 / float16 forms (see forms_tie)
         Xf = own_sample(*spec)
         out.append(('image-float32', np.asarray(Xf.astype(np.float32), dtype=np.float64)))
@@ -1280,6 +1285,132 @@ def routes_tie(ctx):
     ctx.ob('corr:alias-routes', not bad, 'tie', bad[0] if bad else 'ok')
 
 
+# ----------------------------------------------------------------------------------- perfect dependence
+PERFECT_KINDS = ('identical', 'monotone', 'sorted', 'rank-pseudo', 'discordant', 'discordant-monotone')
+NEAR_PERFECT_KINDS = ('one-tie', 'two-ties', 'one-swap')
+# A violation of the stated oracle by the UNCHANGED tree (reported to the coordinator): at tau == 1.0 exactly
+# `Clayton.compute_theta` returns inf, `check_theta` accepts it (0 <= inf <= inf) and select_copula returns
+# Clayton(theta=inf).  It is raised as a failing input only once it is listed for C11 in known_findings.json
+# (then it prints KNOWN-FINDING); until then it is recorded in the evidence notes and histogram.
+CLEAN_TREE_FINDING = 'select_copula:theta-not-finite:clayton:tau=1'
+
+
+def perfect_dataset(kind, n, seed):
+    r = np.random.RandomState(seed)
+    u = np.sort(r.uniform(0.02, 0.98, size=n))
+    v = np.sort(r.uniform(0.02, 0.98, size=n))
+    if kind == 'identical':
+        X = np.column_stack((u, u))
+    elif kind == 'monotone':
+        X = np.column_stack((u, u ** 3))
+    elif kind == 'sorted':
+        X = np.column_stack((u, v))
+    elif kind == 'rank-pseudo':
+        p = np.arange(1, n + 1) / (n + 1.0)
+        X = np.column_stack((p, p))
+    elif kind == 'discordant':
+        X = np.column_stack((u, v[::-1]))
+    elif kind == 'discordant-monotone':
+        X = np.column_stack((u, 1.0 - u))
+    else:                                   # tau = 1 - tiny, with ties / one inversion
+        w = u.copy()
+        i = n // 3
+        if kind == 'one-tie':
+            w[i] = w[i + 1]
+            X = np.column_stack((u, w))
+        elif kind == 'two-ties':
+            w[i] = w[i + 1]
+            u2 = u.copy()
+            u2[2 * i] = u2[2 * i + 1]
+            X = np.column_stack((u2, w))
+        else:
+            w[i], w[i + 1] = w[i + 1], w[i]
+            X = np.column_stack((u, w))
+    return X[r.permutation(n)]              # row order is irrelevant to tau; do not hand sorted rows only
+
+
+def perfect_specs():
+    out = []
+    for j, kind in enumerate(PERFECT_KINDS):
+        for n in (2, 3, 10, 200):
+            out.append((kind, n, 6100 + 10 * j + n % 7))
+    for j, kind in enumerate(NEAR_PERFECT_KINDS):
+        for n in (10, 200):
+            out.append((kind, n, 6200 + 10 * j + n % 7))
+    return out
+
+
+def c11_known_classes():
+    try:
+        return {k['class'] for k in vc.load_known().get('findings', []) if k.get('property') == 'C11'}
+    except Exception:  # noqa
+        return set()
+
+
+def perfect_case(ctx, spec):
+    """the property's statement on perfectly (or almost perfectly) concordant / discordant data."""
+    from copulas.bivariate import select_copula
+    from scipy import stats
+    kind, n, seed = spec
+    X = perfect_dataset(kind, n, seed)
+    inp = {'dataset': 'perfect:' + kind, 'n': n, 'seed': seed, 'generator': 'c11.perfect_dataset',
+           'X': X.tolist() if n <= 10 else None}
+    cls = 'select_copula:theta-not-calibrated:perfect-dependence'
+    req = 'the result is a Frank, Clayton or Gumbel instance whose tau is the Kendall tau of X and whose theta is finite, ' \
+          'inside the family\'s theta_interval, not in invalid_thetas, and equal to that family\'s calibration of tau'
+    with np.errstate(all='ignore'):
+        tau = stats.kendalltau(X[:, 0], X[:, 1])[0]
+    ctx.count('perfect:tau=%s' % ('+1' if tau == 1 else '-1' if tau == -1 else 'near'))
+    try:
+        with np.errstate(all='ignore'):
+            r = select_copula(X)
+    except Exception as e:  # noqa
+        ctx.fail_input('copulas.bivariate.select_copula', inp, {'raises': f'{type(e).__name__}: {e}', 'kendalltau': float(tau)},
+                       req, cls)
+        return 1
+    fam = fam_of(r)
+    if fam is None:
+        ctx.fail_input('copulas.bivariate.select_copula', inp, type(r).__name__, req, cls)
+        return 1
+    theta = float(r.theta)
+    lower, upper = type(r).theta_interval
+    with np.errstate(all='ignore'):
+        if fam == 'clayton':
+            ref = float(2 * tau / (1 - tau))
+        elif fam == 'gumbel':
+            ref = float(np.float64(1) / (1 - tau))
+        else:
+            ref = frank_theta_independent(np.float64(tau))
+    obs = {'family': fam, 'tau': float(r.tau), 'theta': theta, 'kendalltau': float(tau), 'calibration_of_tau': ref,
+           'theta_interval': [float(lower), float(upper)], 'invalid_thetas': [float(t) for t in type(r).invalid_thetas]}
+    problems = []
+    if not same(r.tau, tau):
+        problems.append('tau is not the Kendall tau of X')
+    if not math.isfinite(theta):
+        problems.append('theta is not finite')
+    if not (lower <= theta <= upper) or theta in type(r).invalid_thetas:
+        problems.append('theta outside the admissible set')
+    if not (same(theta, ref) or (math.isfinite(ref) and abs(theta - ref) <= 1e-9 * abs(ref))):
+        problems.append('theta is not the calibration of tau')
+    if not problems:
+        return 4
+    obs['problems'] = problems
+    if fam == 'clayton' and tau == 1 and theta == float('inf') and problems == ['theta is not finite']:
+        ctx.count('clean-tree-finding:' + CLEAN_TREE_FINDING)
+        if CLEAN_TREE_FINDING in c11_known_classes():
+            ctx.fail_input('copulas.bivariate.select_copula', inp, obs, req, CLEAN_TREE_FINDING)
+        elif not any(CLEAN_TREE_FINDING in x for x in ctx.notes):
+            ctx.notes.append(f'{CLEAN_TREE_FINDING}: unchanged tree returns Clayton(theta=inf) for tau == 1.0 '
+                             f'(e.g. {kind}, n={n}); reported to the coordinator, not yet in known_findings.json')
+        return 4
+    ctx.fail_input('copulas.bivariate.select_copula', inp, obs, req, cls)
+    return 4
+
+
+def perfect_oracle(ctx):
+    return sum(perfect_case(ctx, spec) for spec in perfect_specs())
+
+
 RECOVERY_TAUS = (0.3, 0.5, 0.7)
 RECOVERY_N = 3000
 RECOVERY_SEEDS = 10
@@ -1312,6 +1443,7 @@ def search(ctx, deep):
     checks += large_n_oracle(ctx)
     checks += negative_tau_oracle(ctx)
     checks += raw_tau_oracle(ctx)
+    checks += perfect_oracle(ctx)
     checks += forms_oracle(ctx)
     checks += routes_oracle(ctx)
     cells = {}
@@ -1353,6 +1485,9 @@ def replay(ctx, payload):
             return inp.get('form') in hit
         routes_case(ctx, spec, lambda sp, name, *a: hit.append(name))
         return inp.get('route') in hit
+    if str(inp.get('dataset', '')).startswith('perfect:') and 'seed' in inp:
+        perfect_case(ctx, (inp['dataset'].split(':', 1)[1], inp['n'], inp['seed']))
+        return any(f['class'] == cls for f in ctx.failing[before:])
     if cls == 'select_copula:tau-not-kendall-of-raw-columns' and 'seed' in inp:
         raw_tau_case(ctx, (inp['dataset'].split(':', 1)[1], inp['n'], inp['seed']))
         return any(f['class'] == cls for f in ctx.failing[before:])
